@@ -261,6 +261,10 @@ func (g *G) Scalar(k ref.Kind) *ref.Item {
 				it.AMin = g.R.Intn(5)
 				it.AMax = it.AMin + g.R.Intn(9)
 			}
+			if g.R.Chance(1, 12) {
+				// an upper bound at or beyond what an item can hold (a bound is a number, not a size that exists)
+				it.AMax = []int{16777215, 16777216, 20000000, 1<<31 - 1, 1 << 31, 1 << 40}[g.R.Intn(6)]
+			}
 			return it
 		}
 		amax := 12
